@@ -35,25 +35,25 @@ Definition run (inp : list Z) : list Z :=
   match inp with
   | op :: rest =>
     if op =? 1 then
-      match pall (fx <- pbool ;; o <- pbinop ;; m <- psampling ;; f <- pfill ;; s1 <- pspec ;; s2 <- pspec ;;
-                  pret (fx, o, m, f, s1, s2)) rest with
-      | Some (fx, o, m, f, s1, s2) =>
-          eresult erspec (rbind s1 (fun a => rbind s2 (fun b => ufunc fx o a (PSpectrum b) m f)))
+      match pall (o <- pbinop ;; m <- psampling ;; f <- pfill ;; s1 <- pspec ;; s2 <- pspec ;;
+                  pret (o, m, f, s1, s2)) rest with
+      | Some (o, m, f, s1, s2) =>
+          eresult erspec (rbind s1 (fun a => rbind s2 (fun b => ufunc o a (PSpectrum b) m f)))
       | None => emalformed end
     else if op =? 2 then
       match pall (refl <- pbool ;; o <- pbinop ;; s <- pspec ;; c <- pQ ;; pret (refl, o, s, c)) rest with
       | Some (refl, o, s, c) =>
-          eresult erspec (rbind s (fun a => (if refl then rdunder else dunder) false o a (PScalar c)))
+          eresult erspec (rbind s (fun a => (if refl then rdunder else dunder) o a (PScalar c)))
       | None => emalformed end
     else if op =? 3 then
       match pall (refl <- pbool ;; o <- pbinop ;; s <- pspec ;; l <- plist pQ ;; pret (refl, o, s, l)) rest with
       | Some (refl, o, s, l) =>
-          eresult erspec (rbind s (fun a => (if refl then rdunder else dunder) false o a (PVector l)))
+          eresult erspec (rbind s (fun a => (if refl then rdunder else dunder) o a (PVector l)))
       | None => emalformed end
     else if op =? 4 then
       match pall (refl <- pbool ;; o <- pbinop ;; s <- pspec ;; pret (refl, o, s)) rest with
       | Some (refl, o, s) =>
-          eresult erspec (rbind s (fun a => (if refl then rdunder else dunder) false o a POther))
+          eresult erspec (rbind s (fun a => (if refl then rdunder else dunder) o a POther))
       | None => emalformed end
     else if op =? 5 then
       match pall pspec rest with
